@@ -33,7 +33,24 @@ func resultType(sig *types.Signature) types.Type {
 func (tr *FnTrans) callWith(c *ssa.CallCommon, site ssa.Instruction, pos token.Pos, args []Val) Val {
 	savedGhost := tr.pendingGhost
 	tr.pendingGhost = nil
+	savedLast := tr.lastBind
+	tr.lastBind = ""
 	r := tr.callWith0(c, site, pos, args)
+	if b := tr.lastBind; b != "" {
+		// results of a named call: <name>_r (single result) or <name>_r0,
+		// <name>_r1, ... (tuple)
+		if len(r.Fields) > 0 && c.Signature().Results().Len() > 1 {
+			for j, f := range r.Fields {
+				tr.binds[fmt.Sprintf("%s_r%d", b, j)] = f
+			}
+		} else if c.Signature().Results().Len() == 1 {
+			tr.binds[b+"_r"] = r
+		}
+		if tr.pendingBind == b {
+			tr.pendingBind = ""
+		}
+	}
+	tr.lastBind = savedLast
 	items := tr.pendingGhost
 	tr.pendingGhost = savedGhost
 	if len(items) > 0 {
@@ -354,6 +371,34 @@ func (tr *FnTrans) applyContractEnv(fc *FuncContract, name string, sig *types.Si
 	// effects
 	if fc.ModAll {
 		tr.havocAll()
+	} else if fc.ModHeap && fc.ModGhosts {
+		// everything except the excepted heap components
+		excepted := map[string]bool{}
+		for _, m := range fc.ModExcept {
+			for _, t := range tr.modTargets(ec, m) {
+				excepted[t.comp] = true
+			}
+		}
+		keep := map[string]string{}
+		for c := range excepted {
+			if _, ok := vc.compSort[c]; ok {
+				keep[c] = vc.hget(tr.cur, c)
+			}
+		}
+		ks := &keptSet{ghostMod: map[string]bool{}, comps: map[string]bool{}}
+		for c := range keep {
+			ks.comps[c] = true
+		}
+		tr.keepNext = ks
+		tr.havocAll()
+		for c, v := range keep {
+			tr.cur.m[c] = v
+		}
+		var gts []modTarget
+		for _, m := range fc.Modifies {
+			gts = append(gts, tr.modTargets(ec, m)...)
+		}
+		_ = gts
 	} else if fc.ModHeap {
 		// everything program-visible is havoced, ghost state only as listed
 		var targets []modTarget
